@@ -33,6 +33,31 @@ class C01(rowgen.RowGenProp):
             yield rowgen.gen_case(rng, spec, rng.randint(2, 60), call_p=0.15, reset_p=0.03)
         for i in range(40 if tier == "quick" else 600):
             yield self.bot_session(rng)
+        for i in range(25 if tier == "quick" else 300):
+            yield self.server_session(rng)
+
+    def server_session(self, rng):
+        """Server mode: several touches in one session, a method of another stage selected between them
+        (no size change or global state in between), the tower at least as big as every stage."""
+        from harness.props.c19 import method_msg
+        N = rng.choice([6, 8, 10])
+        w = 0.25
+        row_t = w * N + 0.01 * N
+        t = 1000.3 + rng.random()
+        events = []
+        on_join = scen.humans_on_join([], "Wheatley", list(range(1, 17)))
+        for k in range(rng.choice([2, 2, 3])):
+            stage = rng.randint(4, N)
+            events.append([t - 0.2, "msg", method_msg(stage)])
+            events.append(scen.call(t, scen.LOOK_TO))
+            t_stand = t + rng.uniform(4, 8) * row_t
+            events.append(scen.call(t_stand, scen.STAND))
+            t = t_stand + 3 * row_t + 0.5 + rng.random()
+        sc = {"start": 1000.0, "end": t, "tower_size": N, "events": events, "on_join": on_join,
+              "bot": scen.bot_cfg({"type": "placeholder"}, up_down_in=True, stop_at_rounds=False,
+                                  user_name="Wheatley", server_id=rng.randint(1, 9)),
+              "rhythm": scen.stub_rhythm(w)}
+        return {"k": "world", "scenario": sc, "server": True}
 
     def bot_session(self, rng):
         """The rows the Bot rings (with cover bells) in a tower at least as big as the method."""
@@ -98,6 +123,8 @@ class C01(rowgen.RowGenProp):
         return super().compare(req, ir, mr)
 
     def tag(self, req, reply):
+        if req["k"] == "world" and req.get("server"):
+            return "bot:server-mode:stage-changes-between-touches"
         if req["k"] == "world":
             g = req["scenario"]["bot"]["gen"]
             sr = g.get("start_row")
